@@ -11,6 +11,12 @@ def show(v):
     if isinstance(v, tuple): return ('star',) + tuple(show(i) for i in v)
     if isinstance(v, dict): return ('kwstar',) + tuple((k, show(i)) for k, i in v.items())
     return type(v).__name__
+def _hb(s, v):
+    print(s, 'h', show(v))
+    return object
+class _KW:
+    def __init_subclass__(cls, tag=None, **kw):
+        super().__init_subclass__(**kw)
 '''
 
 STMT_KINDS = ("function", "class")
@@ -27,7 +33,9 @@ ROLES = {
                  # then precedes the name in the list of free variables
                  "classref-read", "classref-nonlocal-assign", "classref-nonlocal-aug"),
     "class": ("none", "read", "assign", "aug", "walrus", "for", "def", "class", "import", "global-assign", "global-read",
-              "nonlocal-assign", "nonlocal-read", "late-assign"),
+              "nonlocal-assign", "nonlocal-read", "late-assign",
+              # the header of a class statement (bases, keywords) is evaluated in the ENCLOSING scope, whatever the body binds
+              "base-read", "base-read-assign", "kw-read"),
     "lambda": ("none", "read", "param", "walrus", "param-default", "param-star", "param-kwstar", "param-kwonly", "param-posonly",
                "default-read", "default-same"),
     "comp": ("none", "read", "target", "walrus", "iter-read", "iter-target"),
@@ -73,6 +81,7 @@ class Render:
             "def": [f"def {x}():", f"    return {t}", rd],
             "class": [f"class {x}:", f"    v = {t}", rd],
             "import": [f"import math as {x}", rd],
+            "base-read": [], "kw-read": [], "base-read-assign": [f"{x} = {t}", rd],
             "param": [rd], "param-star": [rd], "param-kwstar": [rd], "param-kwonly": [rd], "param-posonly": [rd],
             "param-default": [rd], "default-same": [rd], "kwdefault-same": [rd],
             "default-read": [f"print({sid}, 'd', show(_d{sid}))", f"print({sid}, 'r', show({x}))"],
@@ -128,6 +137,10 @@ class Render:
             if node.role == "kwdefault-same":
                 return [f"def f{sid}(*, {x}={x}):"] + ind + [f"f{sid}()"]
             return [f"def f{sid}():"] + ind + [f"f{sid}()"]
+        if node.role in ("base-read", "base-read-assign"):
+            return [f"class C{sid}(_hb({sid}, {x})):"] + ind
+        if node.role == "kw-read":
+            return [f"class C{sid}(_KW, tag=_hb({sid}, {x})):"] + ind
         return [f"class C{sid}:"] + ind
 
     def child_stmts(self, c):
